@@ -60,7 +60,7 @@ def kinds_from_facts(F):
 
     dg = F.get("file_digest_fields") or []
     stat_digest = any(x.startswith("Path=path") for x in dg) and any("Size=info.Size()" in x for x in dg) \
-        and any("ModTime=info.ModTime()" in x for x in dg) \
+        and any(x == "ModTime=info.ModTime().UnixNano()" for x in dg) \
         and all('yaml:"-' not in (yaml.get("fileDigest." + n) or 'yaml:"-') for n in ("Path", "Size", "ModTime"))
     if not stat_digest:
         notes.append("per-file digest lacks one of path/size/mtime: " + repr(dg))
@@ -77,7 +77,8 @@ def kinds_from_facts(F):
     has["KAltGoFiles"] = src("pkg", "AltGoFiles", "AltPkg.GoFiles") and stat_digest
     has["KOtherFiles"] = src("pkg", "OtherFiles", "p.OtherFiles") and src("pkg", "OtherFiles", "pkgSFiles") and stat_digest
     has["KEmbedFiles"] = anysrc("pkg", ["EmbedFiles", "EmbedPatterns", "goembed", "embedMap"])
-    has["KSideCFiles"] = anysrc("pkg", ["LLGoFiles", "llgoPkgLinkFiles", "concatPkgLinkFiles", "clFiles"])
+    has["KSideCFiles"] = any(live(sc, f) and any("digestFiles" in x for x in v) and any("llgofiles" in x.lower() or "llgoPkgLinkFiles" in x for x in v)
+                             for (sc, f), v in fields.items() if sc == "pkg") and stat_digest
     has["KSameStatContent"] = bool(F.get("file_content_hashed"))
     has["KTags"] = src("common", "BuildTags", "buildConf.Tags")
     has["KRewrites"] = src("pkg", "RewriteVars", "rewriteVars")
@@ -90,7 +91,7 @@ def kinds_from_facts(F):
     has["KEnvListed"] = src("env", "Vars", "os.Getenv") and needed <= listed and len(needed) > 0
     if not needed <= listed:
         notes.append("environment switches read by build.go but not in the manifest: " + ",".join(sorted(needed - listed)))
-    has["KEnvExpand"] = anysrc("pkg", ["ExpandEnv", "xenv."]) or anysrc("common", ["ExpandEnv", "xenv."])
+    has["KEnvExpand"] = anysrc("pkg", ["xenv.ExpandEnv"]) or anysrc("common", ["xenv.ExpandEnv"])
     has["KTarget"] = (src("env", "Goos", "buildConf.Goos") and src("env", "Goarch", "buildConf.Goarch")
                       and src("env", "LlvmTriple", "LLVMTarget") and src("common", "Target", "buildConf.Target")
                       and src("common", "TargetABI", "TargetABI"))
@@ -183,7 +184,9 @@ func Report() {
     return files, v
 
 
-def sub_in_file(path, old, new, keep_stat=False):
+def sub_in_file(path, old, new, keep_stat=False, bump_ns=None):
+    """keep_stat: restore size-preserving edit's mtime exactly; bump_ns: set mtime to old mtime + bump_ns (boundary:
+    an edit in the same second / microsecond as the previous write)"""
     st = os.stat(path)
     s = open(path).read()
     assert old in s, (path, old)
@@ -192,6 +195,10 @@ def sub_in_file(path, old, new, keep_stat=False):
     if keep_stat:
         assert len(s2.encode()) == len(s.encode())
         os.utime(path, ns=(st.st_atime_ns, st.st_mtime_ns))
+    elif bump_ns:
+        assert len(s2.encode()) == len(s.encode())
+        os.utime(path, ns=(st.st_atime_ns, st.st_mtime_ns + bump_ns))
+        assert os.stat(path).st_mtime_ns == st.st_mtime_ns + bump_ns, "file system does not keep nanosecond mtimes"
     else:
         # make sure the mtime moves even on coarse clocks
         st2 = os.stat(path)
@@ -225,18 +232,20 @@ def histories(v, tier):
     python steps: ("build",) | ("edit", description, fn(dir, cfg) -> cfg) | ("clear",)"""
     g = v["gosrc"]
 
-    def ed_file(rel, old, new, keep=False):
+    def ed_file(rel, old, new, keep=False, bump=None):
         def f(d, cfg):
-            sub_in_file(os.path.join(d, rel), old, new, keep)
+            sub_in_file(os.path.join(d, rel), old, new, keep, bump)
             return cfg
-        return ("edit", "%s: %r -> %r%s" % (rel, old, new, " (size and mtime preserved)" if keep else ""), f)
+        return ("edit", "%s: %r -> %r%s" % (rel, old, new, " (size and mtime preserved)" if keep else
+                                           (" (same size, mtime + %d ns)" % bump if bump else "")), f)
 
     def ed_cfg(what, **kw):
         return ("edit", what, lambda d, cfg: cfg.with_(**kw))
 
     B = ("build",)
     hs = {}
-    hs["go-file"] = dict(kind="KGoFiles", steps=[B, ed_file("a/a.go", 'println("gosrc", %d)' % g, 'println("gosrc", %d)' % (g + 1)), B],
+    # boundary: same size, mtime one microsecond later (an edit within the same second must be seen)
+    hs["go-file"] = dict(kind="KGoFiles", steps=[B, ed_file("a/a.go", 'println("gosrc", %d)' % g, 'println("gosrc", %d)' % (g + 1), bump=1000), B],
                          model="[Build; EditPkg 1 KGoFiles 1; Build]")
     hs["build-tag"] = dict(kind="KTags", steps=[B, ed_cfg("-tags '' -> vtag", tags="vtag"), B],
                            model="[Build; EditAll KTags 1; EditPkg 1 KGoFiles 1; Build]")
@@ -263,10 +272,12 @@ def histories(v, tier):
     hs["other-file"] = dict(kind="KOtherFiles", steps=[B, ed_file("a/side_cfg.h", "C13_CFG %d" % v["cfg"], "C13_CFG %d" % (v["cfg"] + 1000)), B],
                             model="[Build; EditPkg 1 KOtherFiles 1; Build]")
     # interleaving: no-op rebuild (must hit the cache), clear, edit in the middle package, rebuild, edit back
-    hs["noop-clear-edit"] = dict(kind="KGoFiles", expect_hits_at=1,
-                                 steps=[B, B, ("clear",), B, ed_file("b/b.go", "return %d" % v["bg"], "return %d" % (v["bg"] + 3)), B,
-                                        ed_file("b/b.go", "return %d" % (v["bg"] + 3), "return %d" % v["bg"]), B],
-                                 model="[Build; Build; ClearCache; Build; EditPkg 2 KGoFiles 1; Build; EditPkg 2 KGoFiles 2; Build]")
+    noop = [B, B, ("clear",), B, ed_file("b/b.go", "return %d" % v["bg"], "return %d" % (v["bg"] + 3)), B]
+    noop_model = "Build; Build; ClearCache; Build; EditPkg 2 KGoFiles 1; Build"
+    if tier != "quick":   # ... and edit back
+        noop += [ed_file("b/b.go", "return %d" % (v["bg"] + 3), "return %d" % v["bg"]), B]
+        noop_model += "; EditPkg 2 KGoFiles 2; Build"
+    hs["noop-clear-edit"] = dict(kind="KGoFiles", expect_hits_at=1, steps=noop, model="[" + noop_model + "]")
     if tier != "quick":
         hs["two-edits"] = dict(kind="KEmbedFiles", embed=True,
                                steps=[B, ed_file("a/data/msg.txt", v["msg"], v["msg"] + "-e1"),
@@ -421,7 +432,6 @@ def run(ck):
     text2 = "From LLGoV Require Import C13.Model.\n"
     text2 += "Definition gen_manifest_kinds : list kind := %s.\n" % coq_kinds(gen)
     text2 += "Lemma covers_now_modulo_known : covers (gen_manifest_kinds ++ %s) (KDeps :: relevant_kinds) = true.\nProof. reflexivity. Qed.\n" % coq_kinds(known_kinds)
-    text2 += "Lemma known_not_covered : forallb (fun k => negb (memk k gen_manifest_kinds)) %s = true.\nProof. reflexivity. Qed.\n" % coq_kinds(known_kinds)
     rc2, out2 = ck.coq_run(text2, "c13_covers")
     ck.obligations.append(("covers_now_modulo_known", rc2 == 0,
                            "generated: manifest kinds %s; uncovered %s; known %s" % (gen, uncovered, known_kinds)))
@@ -432,9 +442,12 @@ def run(ck):
     static_viol = {}
     for k in uncovered:
         static_viol[k] = "the cache manifest does not contain %s (generated obligation covers_now fails on it)" % k
-    if rc2 != 0 and all(KEYS[k] in ck.known for k in uncovered):
-        # a recorded finding that is now covered (fixed): the record is out of date, not a violation of the tree
-        ck.log("note: a known-finding kind is now covered by the manifest:", out2[-300:])
+    if rc2 != 0:
+        ck.log("generated obligation covers_now_modulo_known FAILED:", out2[-400:])
+    fixed = [k for k in known_kinds if k not in uncovered]
+    if fixed:
+        # a recorded finding whose kind is now in the manifest: the record is out of date, not a violation of the tree
+        ck.log("note: kinds recorded as known findings are now covered by the manifest:", ",".join(fixed))
     ck.phase("manifest obligation evaluated")
 
     # ---------------- E: the histories on the real llgo
@@ -457,7 +470,7 @@ def run(ck):
     e2e.write_module(sde, {"main.go": 'package main\n\nimport _ "embed"\n\nfunc main() { println("seed") }\n'}, modname="seedembed")
     R0 = Runner(ck, L, drv, files, files_embed, None)
     seed_cfgs = [(Cfg(), False, sd), (Cfg(), False, sde), (Cfg(tags="vtag"), False, sd), (Cfg(opt="1"), False, sd),
-                 (Cfg(env={"LLGO_TRACE": "1"}), False, sd), (Cfg(), True, sd)]
+                 (Cfg(env={"LLGO_TRACE": "1"}), False, sd), (Cfg(), True, sd), (Cfg(), True, sde)]
     if ck.tier != "quick":
         seed_cfgs.append((Cfg(opt="2"), False, sd))
 
@@ -472,9 +485,31 @@ def run(ck):
     ck.phase("seed caches built")
     R = Runner(ck, L, drv, files, files_embed, seed)
 
-    with ThreadPoolExecutor(min(len(names), 14)) as ex:
-        results = list(ex.map(lambda n: R.run_history(n, hs[n]), names))
-    ck.phase("histories done")
+    # ---------------- determinism: per-package IR of repeated clean builds
+    nrep = 3 if ck.tier == "quick" else 6
+    dd = os.path.join(ck.work, "det", "src")
+    e2e.write_module(dd, files_embed)
+
+    def det_one(i):
+        cache = os.path.join(ck.work, "det", "cache%d" % i)
+        if ck.tier == "quick":
+            shutil.copytree(seed, cache)       # runtime/std archives cached; IR of every package is still generated (ModuleHook)
+        else:
+            os.makedirs(cache, exist_ok=True)  # empty: every package is compiled
+        irj = os.path.join(ck.work, "det", "ir%d.json" % i)
+        env = dict(BASE_ENV)
+        env["XDG_CACHE_HOME"] = cache
+        rc, log = vlib.sh([drv, "-O", "0", "-o", os.path.join(ck.work, "det", "prog%d" % i), "-irhash", irj, "."], cwd=dd, env=L.env(env), timeout=1500)
+        if rc != 0 or not os.path.exists(irj):
+            return None, log
+        bh = hashlib.sha256(open(os.path.join(ck.work, "det", "prog%d" % i), "rb").read()).hexdigest()
+        return json.load(open(irj)), bh
+    with ThreadPoolExecutor(min(len(names) + nrep, 16)) as ex:
+        fut_h = [ex.submit(R.run_history, n, hs[n]) for n in names]
+        fut_d = [ex.submit(det_one, i) for i in range(nrep)]
+        results = [f.result() for f in fut_h]
+        det = [f.result() for f in fut_d]
+    ck.phase("histories and repeated clean builds done")
 
     classes, samples, nontrivial = {}, [], 0
     any_hit = False
@@ -484,7 +519,7 @@ def run(ck):
         if r["error"]:
             ck.correspondence_broken("history:" + n, r["error"])
             continue
-        if any(r["hits"][1:] and any(hh for hh in r["hits"][1:]) for _ in [0]):
+        if any(hh for hh in r["hits"][1:]):
             any_hit = True
         if r["effects"] and all(r["effects"]):
             nontrivial += 1
@@ -516,24 +551,6 @@ def run(ck):
         ck.violation(KEYS[k], what + "; no end-to-end history went stale for it", {"manifest_kinds": gen, "uncovered": uncovered, "facts": os.path.join(ck.work, "manifest_facts.json"),
                                                                                 "extractor_notes": notes})
 
-    # ---------------- determinism: per-package IR of repeated clean builds
-    nrep = 3 if ck.tier == "quick" else 6
-    dd = os.path.join(ck.work, "det", "src")
-    e2e.write_module(dd, files_embed)
-
-    def det_one(i):
-        cache = os.path.join(ck.work, "det", "cache%d" % i)
-        os.makedirs(cache, exist_ok=True)      # empty: every package is compiled
-        irj = os.path.join(ck.work, "det", "ir%d.json" % i)
-        env = dict(BASE_ENV)
-        env["XDG_CACHE_HOME"] = cache
-        rc, log = vlib.sh([drv, "-O", "0", "-o", os.path.join(ck.work, "det", "prog%d" % i), "-irhash", irj, "."], cwd=dd, env=L.env(env), timeout=1500)
-        if rc != 0 or not os.path.exists(irj):
-            return None, log
-        bh = hashlib.sha256(open(os.path.join(ck.work, "det", "prog%d" % i), "rb").read()).hexdigest()
-        return json.load(open(irj)), bh
-    with ThreadPoolExecutor(nrep) as ex:
-        det = list(ex.map(det_one, range(nrep)))
     if any(d[0] is None for d in det):
         ck.correspondence_broken("determinism-build", [d[1][-600:] for d in det if d[0] is None][:1])
     else:
@@ -546,7 +563,6 @@ def run(ck):
             ck.violation("ir-nondeterministic", "the IR of %d package(s) differs between identical clean builds: %s" % (len(diff), ", ".join(diff[:6])),
                          {"module": files_embed, "packages": diff, "how": "c13drv -O 0 -irhash out.json . twice with empty XDG_CACHE_HOME; compare"})
         R.nbuilds += nrep
-    ck.phase("determinism done")
 
     ck.add_cov(evaluations=R.nbuilds + R0.nbuilds, nontrivial=nontrivial, samples=samples, classes=classes)
     ck.cov["predicted_stale"] = predicted
